@@ -7,7 +7,7 @@ From PegV Require Import Base.Tac Spec.Syntax Spec.Peg Model.Machine Model.Gen P
     rule spanning the consumed prefix; every token has 0 <= begin <= end <= number of runes.
     The result does not depend on the parser's earlier state [st0] (stale token slice). *)
 Theorem C03_tokens_postorder :
-  forall g ptx buf penv, good_grammar g -> good_buf buf ->
+  forall g ptx buf penv, good_grammar g -> good_buf buf -> good_switches g ->
   forall memo inline n r st0 p f evs,
     slot_ok g inline r -> peg_parse g ptx buf penv n r = Some (Succ p f, evs) ->
     exists st' kids, machine g ptx buf penv memo inline n r st0 = Some (Ret true st') /\
